@@ -42,6 +42,18 @@ VISUAL_VALID = ['color', 'dash', 'dashlist', 'fill', 'font',
                 'facecolor', 'edgecolor']
 VISUAL_KEYMAP = {'point': 'symbol', 'width': 'linewidth'}
 BAD_KEYS = ['bogus', 'colour', 'Include', 'radius', '', 'tags']
+# keys of the *other* vocabulary are just as invalid (and are exactly what a
+# shared cache or a "trusted Meta argument" shortcut would let through)
+META_ONLY = [k for k in META_VALID if k not in VISUAL_VALID]
+VISUAL_ONLY = [k for k in VISUAL_VALID if k not in META_VALID] + ['point',
+                                                                  'width']
+
+
+def bad_key(rng, which):
+    """A key outside the vocabulary of ``which`` ('meta' | 'visual')."""
+    if rng.chance(0.5):
+        return rng.pick(BAD_KEYS)
+    return rng.pick(VISUAL_ONLY if which == 'meta' else META_ONLY)
 
 
 # ------------------------------------------------------------- model
@@ -1149,7 +1161,7 @@ class Machine:
             if c == 'metakey':
                 which = rng.pick(['meta', 'visual'])
                 d = {'name' if which == 'meta' else 'color': 'ok',
-                     rng.pick(BAD_KEYS): 1}
+                     bad_key(rng, which): 1}
                 if which == 'meta':
                     meta = d
                 else:
@@ -1260,7 +1272,7 @@ class Machine:
             if invalid:
                 bad = 'badkey'
                 keys = list(d)
-                d[rng.pick(BAD_KEYS)] = 1
+                d[bad_key(rng, f)] = 1
                 if keys and rng.chance(0.5):    # bad key first
                     d = {k: d[k] for k in reversed(list(d))}
                 v = d
@@ -1335,10 +1347,12 @@ class Machine:
         invalid = rng.chance(0.6)
         good = draw_dict_items(rng, which, 2)
         gk = [[k, build(v)] for k, v in good]
-        badk = rng.pick(BAD_KEYS)
+        badk = bad_key(rng, which)
+        Other = RegionVisual if which == 'meta' else RegionMeta
         entry = rng.pick(['setitem', 'update_map', 'update_pairs',
                           'update_kw', 'setdefault', 'ior', 'ctor_map',
-                          'ctor_pairs', 'ctor_kw', 'fromkeys', 'update_meta'])
+                          'ctor_pairs', 'ctor_kw', 'fromkeys', 'update_meta',
+                          'update_obj', 'ior_obj', 'ctor_obj'])
         if d is None and not entry.startswith(('ctor', 'fromkeys')):
             entry = rng.pick(['ctor_map', 'ctor_pairs', 'ctor_kw',
                               'fromkeys'])
@@ -1363,6 +1377,27 @@ class Machine:
             other = {k: v for k, v in items}
             fn = lambda: d.update(other, **{})  # noqa
             desc = f'update(mapping {[k for k, _ in items]})'
+        elif entry in ('update_obj', 'ior_obj', 'ctor_obj'):
+            # the argument is itself a Meta object: of the same kind when
+            # every key is valid, else of whichever kind accepts the keys
+            arg = None
+            for C in (Cls, Other):
+                try:
+                    arg = C(dict(items))
+                    break
+                except KeyError:
+                    continue
+            if arg is None:
+                arg = dict(items)
+            if entry == 'update_obj':
+                fn = lambda: d.update(arg)  # noqa
+            elif entry == 'ior_obj':
+                def fn():
+                    dd = d
+                    dd |= arg
+            else:
+                fn = lambda: Cls(arg)  # noqa
+            desc = f'{entry}({type(arg).__name__} {[k for k, _ in items]})'
         elif entry == 'update_pairs':
             fn = lambda: d.update([(k, v) for k, v in items])  # noqa
             desc = f'update(pairs {[k for k, _ in items]})'
@@ -1543,7 +1578,8 @@ class Machine:
             elif c == 'operator':
                 opr = rng.pick([None, 'and', 5])
             else:
-                kw[rng.pick(['meta', 'visual'])] = {rng.pick(BAD_KEYS): 1}
+                wh = rng.pick(['meta', 'visual'])
+                kw[wh] = {bad_key(rng, wh): 1}
             value = c
         elif rng.chance(0.5):
             kw['meta'] = {k: build(v) for k, v in draw_dict_items(rng, 'meta')}
@@ -1608,7 +1644,7 @@ class Machine:
         else:
             if invalid:
                 c = 'badkey'
-                v = {rng.pick(BAD_KEYS): 1}
+                v = {bad_key(rng, f): 1}
                 value = 'dict:' + c
             else:
                 v = {k: build(x) for k, x in draw_dict_items(rng, f)}
